@@ -70,6 +70,17 @@ def gen_cases(rng, tier):
         out.append(("char %d" % c, X.string(chr(c))))
         out.append(("charctx %d" % c, X.string("a" + chr(c) + "b'")))
         out.append(("name %d" % c, X.tup([(chr(c) + "k", N(1))])))
+    # the same strings built WITHOUT any string literal (spelled-out character tuples), so that what is tested is the printed
+    # form alone - a reader that refuses an escape the printer emits cannot hide behind a construction that fails the same way:
+    # each rune alone, last, first and in the middle
+    def spelled(codes):
+        return X.set_([X.tup([("@", N(i)), ("@char", N(c))]) for i, c in enumerate(codes)])
+    for c in list(range(0, 33)) + [34, 39, 92, 96, 127, 0x80, 0x9f, 0xa0, 0xad, 0xfffd, 0x10FFFF]:
+        out.append(("spelled alone %d" % c, spelled([c])))
+        out.append(("spelled last %d" % c, spelled([97, 98, c])))
+        out.append(("spelled first %d" % c, spelled([c, 97])))
+        out.append(("spelled mid %d" % c, spelled([97, c, 39, 98])))
+        out.append(("spelled key %d" % c, X.set_([X.tup([("@", spelled([107, c])), ("@value", N(1))])])))
     extra = [X.binop("without", X.string("abc"), X.tup([("@", N(1)), ("@char", N(98))])),
              X.bytes_([1, 2], 2), X.bytes_([1, 2], -1), X.arr([N(1), None, N(3)], 2), X.arr([N(1)], -5), X.string("ab", -5),
              X.binop("|", X.dict_([(X.string("a"), N(1))]), X.dict_([(X.string("a"), N(2))])),
@@ -251,6 +262,9 @@ def main(tier, seed, replay=None):
         a = o1.get(c["id"]) or {}
         if a.get("st") != "ok" or "val" not in a:
             hist["construct_failed"] += 1
+            # every program of the pool constructs its value on the unchanged tree: one that does not means part of the claim went unexplored
+            run.corr_breaks.append({"what": "a value-constructing program of the C12 pool does not evaluate (its round trip could not be explored)",
+                                    "case": {"label": c["label"], "src": c["src"]}, "observed": {k: a.get(k) for k in ("st", "msg", "site")}})
             continue
         if not num_ok(a["val"]):
             hist["skipped_numbers"] += 1
